@@ -538,6 +538,7 @@ class SymX:
         self._site: ast.AST | None = None
         self._loop_end: State | None = None
         self._class_consts: dict = {}
+        self.persistent: set[int] = set()  # ids of containers created in class bodies (state shared by all calls)
         self.expanded: set = set()  # `map(f, ...)` terms whose function was applied to every element where the result was consumed
 
     # ------------------------------------------------------------------ entry
@@ -569,6 +570,7 @@ class SymX:
         self._iter_loops = {}
         self._class_consts = {}
         self.expanded = set()
+        self.persistent = set()
         self._ids = itertools.count(self.first_id)
         self.notes = []
         self.mutable_sites = sites
@@ -940,6 +942,8 @@ class SymX:
                 out.heap[k] = va
             else:
                 base_attr = ("attr", k[0], k[1])
+                if k[0] == "#box":
+                    base_attr = self.box_init.get(k[1], ("unk", f"contents of container #{k[1]}", 0))  # not mutated on that path
                 out.heap[k] = phi([(ga, va if va is not None else base_attr), (gb, vb if vb is not None else base_attr)])
         return out
 
@@ -1169,7 +1173,13 @@ class SymX:
                     tg = [n.target]
                 for t in tg:
                     plain |= {x.id for x in ast.walk(t) if isinstance(x, ast.Name)}
-        return {n for n in aug - plain if st.env.get(n, ("x",))[0] == "box"}
+        # `xs += [..]` / `xs += [.. for ..]`: only a list can be extended by a list, whatever xs is known to be
+        listy: dict[str, bool] = {}
+        for b in body:
+            for n in _walk_own(b):
+                if isinstance(n, ast.AugAssign) and isinstance(n.target, ast.Name) and isinstance(n.op, ast.Add):
+                    listy[n.target.id] = listy.get(n.target.id, True) and isinstance(n.value, (ast.List, ast.ListComp))
+        return {n for n in aug - plain if st.env.get(n, ("x",))[0] == "box" or listy.get(n, False)}
 
     @staticmethod
     def _lag_variables(s: ast.For, pre: State, it: Term) -> dict[str, Term]:
@@ -1497,10 +1507,18 @@ class SymX:
         cur = self.eval(s.target, st)
         val = self.eval(s.value, st)
         op = _BINOPS.get(type(s.op), "?")
+        if cur[0] != "box" and op == "+" and (val[0] in ("list",) or val[0] == "box" and val[2] == "list" or val[0] == "comp" and val[1] == "list") and isinstance(s.target, ast.Name):
+            # `xs += [..]` with a list on the right: xs is a list, extended in place (the name keeps denoting the same object)
+            self._record("mut", ("method", "extend"), cur, "extend", (val,), (), st, s, None)
+            self._mutate(cur, "extend", (val,), st)
+            return st
         if cur[0] == "box" and op in ("+", "|"):
             self._record("mut", ("method", "extend" if op == "+" else "update"), cur, "extend" if op == "+" else "update", (val,), (), st, s, None)
             self._mutate(cur, "extend" if op == "+" else "update", (val,), st)
             return st
+        if isinstance(s.target, ast.Name):
+            # (what is accumulated in a rebound name, e.g. `seen += (x,)`, stays visible to the rules)
+            self._record("aug", ("builtin", "augassign"), cur, s.target.id, (val,), (("op", const(op)),), st, s, None)
         self._assign(s.target, ("binop", op, cur, val), st, None)
         return st
 
@@ -1751,6 +1769,7 @@ class SymX:
                 self.frames.pop()
             if v is not None:
                 self._class_consts[key] = v
+                self.persistent |= {x[1] for x in subterms(v) if x[0] == "box"}  # lives as long as the class: shared by all calls
             return v
         return None
 
@@ -2063,6 +2082,10 @@ class SymX:
             callee = self._resolve(call, st)
         if callee is not None:
             return self._call_repo(callee, call, recv, args, kwargs, st)
+        if name == "_replace" and recv[0] == "new" and not args:
+            replaced = self._with_fields(recv, kwargs)
+            if replaced is not None:
+                return replaced
         bound = self._partialmethod(recv, name)
         if bound is not None:
             # `name = partialmethod(method, ...)` in the class body: the method with the leading / keyword arguments filled in
@@ -2080,6 +2103,26 @@ class SymX:
         if ci is None:
             return False
         return not any(b not in self.repo.classes and not b.endswith(("ABC", "object", "Protocol", "Generic")) for c in self.repo.mro(ci) for b in c.bases)
+
+    def _with_fields(self, obj: Term, changes: tuple) -> "Term | None":
+        """`nt._replace(a=x)` / `dataclasses.replace(obj, a=x)`: a new object of the same class with these fields exchanged (only for
+        classes without their own __init__ / __post_init__, whose fields are their constructor arguments)."""
+        ci = self.repo.classes.get(obj[1])
+        if ci is None or self.repo.lookup_method(ci, "__init__") is not None or self.repo.lookup_method(ci, "__post_init__") is not None:
+            return None
+        if any(k == "**" for k, _v in changes):
+            return None
+        fields = [a for c in reversed(self.repo.mro(ci)) for a in c.ann_attrs]
+        if any(k not in fields for k, _v in changes) or len(obj[2]) > len(fields):
+            return None
+        vals: dict[str, Term] = {}
+        for i, v in enumerate(obj[2]):
+            vals[fields[i]] = v
+        for k, v in obj[3]:
+            vals[k] = v
+        for k, v in changes:
+            vals[k] = v
+        return ("new", obj[1], (), tuple((f, vals[f]) for f in fields if f in vals), self.fresh())
 
     def _partialmethod(self, recv: Term, name: str) -> "tuple[FuncInfo, tuple, tuple] | None":
         ci = self._class_of_term(recv)
@@ -2481,6 +2524,10 @@ class SymX:
             folded = self._reduce(fterm, args, st, call)
             if folded is not None:
                 return folded
+        if dotted == "dataclasses.replace" and len(args) == 1 and args[0][0] == "new":
+            replaced = self._with_fields(args[0], kwargs)
+            if replaced is not None:
+                return replaced
         if dotted == "itertools.tee" and args:
             res0 = ("call", fterm, args, kwargs)
             for i in range(2 if len(args) < 2 or args[1][0] != "const" else int(args[1][1])):
